@@ -875,6 +875,18 @@ def restore_call_shapes(tree, modname):
             mine = [len(x.args), sorted(kw.arg for kw in x.keywords if kw.arg is not None), any(kw.arg is None for kw in x.keywords)]
             text = _callee_text(x.func)
             if any(sh[1:] == mine and (k.startswith(".") or sh[0] == text) for sh in shapes[k]):
+                # same shape as some reference call - but a keyword that restates its default is dropped all the same when the
+                # reference also spells the call without it (x.astype(t, copy=True) next to a reference x.astype(t))
+                defaults_ = dict(sig)
+                for kw in list(x.keywords):
+                    if kw.arg is None:
+                        continue
+                    hit = [p for p in defaults_ if kw.arg in p.split("|")]
+                    if hit and defaults_[hit[0]] is not _REQ and _default_equal(kw.value, defaults_[hit[0]]):
+                        rest = sorted(k2.arg for k2 in x.keywords if k2.arg is not None and k2 is not kw)
+                        if any(sh[1] == len(x.args) and sh[2] == rest for sh in shapes[k]):
+                            x.keywords.remove(kw)
+                            applied[q] = applied.get(q, 0) + 1
                 continue
             # bind
             names = [p for p, _ in sig]
@@ -1065,6 +1077,95 @@ def restore_index_loops(tree, modname):
             x.iter = ast.copy_location(ast.parse("range(len(%s))" % first, mode="eval").body, x.iter)
             x.body[0:0] = pre
             applied[q] = applied.get(q, 0) + 1
+    if applied:
+        ast.fix_missing_locations(tree)
+    return applied
+
+
+# ---------------------------------------------------------------------------------------------------------------------
+# constants moved to a new module: `from pydrobert.speech._consts import A, B` where _consts is a module the reference package
+# does not have and A, B are plain constants there is `A = ...; B = ...` in the importing module.  The assignments are copied
+# in (with the constants they are built from) so that the module reads as it did before the move.
+def inline_new_module_constants(tree, modname, pkg_dir, pkg="pydrobert.speech"):
+    if os.environ.get("PDSA_NO_ALPHA") or not _ref():
+        return {}
+    import copy
+    ref = _ref()
+    applied = {}
+    for st in list(tree.body):
+        if not isinstance(st, ast.ImportFrom) or any(a.name == "*" or a.asname not in (None, a.name) for a in st.names):
+            continue
+        mod = st.module or ""
+        if st.level:
+            base = modname.rsplit(".", st.level)[0] if modname.count(".") >= st.level else pkg
+            full = (base + "." + mod) if mod else base
+        else:
+            full = mod
+        if not full.startswith(pkg + ".") or ("@module:" + full) in ref:
+            continue
+        path = os.path.join(pkg_dir, full[len(pkg) + 1:].replace(".", os.sep) + ".py")
+        if not os.path.isfile(path):
+            continue
+        try:
+            with open(path) as fh:
+                other = ast.parse(fh.read())
+        except (OSError, SyntaxError):
+            continue
+        # module-level constant assignments of the other module, in order
+        defs = []
+        simple = set()
+
+        def const_like(e):
+            if _constant_expr(e) or isinstance(e, ast.Constant):
+                return True
+            if isinstance(e, ast.Name):
+                return e.id in simple
+            if isinstance(e, ast.BinOp):
+                return const_like(e.left) and const_like(e.right)
+            if isinstance(e, ast.UnaryOp):
+                return const_like(e.operand)
+            if isinstance(e, (ast.Tuple, ast.List, ast.Set)):
+                return all(const_like(x) for x in e.elts)
+            return False
+        okmod = True
+        body_ = []
+        for o in other.body:
+            # a, b = 1, 2  is  a = 1; b = 2
+            if (isinstance(o, ast.Assign) and len(o.targets) == 1 and isinstance(o.targets[0], ast.Tuple) and isinstance(o.value, ast.Tuple)
+                    and len(o.targets[0].elts) == len(o.value.elts) and all(isinstance(t, ast.Name) for t in o.targets[0].elts)):
+                for t_, v_ in zip(o.targets[0].elts, o.value.elts):
+                    body_.append(ast.copy_location(ast.Assign(targets=[t_], value=v_), o))
+            else:
+                body_.append(o)
+        for o in body_:
+            if isinstance(o, ast.Assign) and all(isinstance(t, ast.Name) for t in o.targets) and const_like(o.value):
+                defs.append(o)
+                simple.update(t.id for t in o.targets)
+            elif isinstance(o, ast.Expr) and isinstance(o.value, ast.Constant):
+                continue  # docstring
+            elif isinstance(o, (ast.Import, ast.ImportFrom)):
+                continue
+            else:
+                okmod = False
+        wanted = {a.name for a in st.names}
+        if not okmod or not wanted <= simple:
+            continue
+        # every name assigned more than once disqualifies
+        counts = {}
+        for o in defs:
+            for t in o.targets:
+                counts[t.id] = counts.get(t.id, 0) + 1
+        if any(v > 1 for v in counts.values()):
+            continue
+        new = [ast.copy_location(copy.deepcopy(o), st) for o in defs]
+        for n_ in new:
+            for y in ast.walk(n_):
+                if hasattr(y, "lineno"):
+                    y.lineno = st.lineno
+                    y.end_lineno = st.lineno
+        i = tree.body.index(st)
+        tree.body[i:i + 1] = new
+        applied[full] = sorted(wanted)
     if applied:
         ast.fix_missing_locations(tree)
     return applied
